@@ -45,6 +45,10 @@ def main():
             t0 = time.time()
             r = run_check(c, f'{d}/patch.diff')
             r['repo_head'] = head
+            old = meta.get('checks', {}).get(c)
+            if old is not None and not old.get('caught') and r['caught']:
+                # keep the record that the first version of the check missed it
+                meta.setdefault('missed_before_strengthening', {})[c] = old
             meta.setdefault('checks', {})[c] = r
             print(f'{name} vs {c}: caught={r["caught"]} held={r["held"]} '
                   f'{r["signatures"][:2]} {r["inconclusive"][:1]} ({time.time()-t0:.0f}s)', flush=True)
@@ -69,7 +73,8 @@ def write_readme():
         what = meta.get('breaks', '').replace('\n', ' ').replace('|', '/')
         if len(what) > 260:
             what = what[:257] + '...'
-        rows.append(f'| {name} | {files} | {what} | {", ".join(caught_by) or "-"} | {", ".join(missed_by) or "-"} | `{sig[:90]}` |')
+        first_miss = ', '.join(meta.get('missed_before_strengthening', {}).keys())
+        rows.append(f'| {name} | {files} | {what} | {", ".join(caught_by) or "-"} | {", ".join(missed_by) or "-"} | {first_miss or "-"} | `{sig[:90]}` |')
     with open(f'{ROOT}/seeded/README.md', 'w') as f:
         f.write('''# Seeded changes
 
@@ -88,8 +93,8 @@ quick tier.  `tools/seed_matrix.py` regenerates the table below.
 against the changed tree (default seed); "not caught by" = the checks that
 were run and held.
 
-| change | files | what it breaks | caught by | not caught by | first signature |
-|---|---|---|---|---|---|
+| change | files | what it breaks | caught by | not caught by | missed before strengthening (see DESIGN.md 7.6) | first signature |
+|---|---|---|---|---|---|---|
 ''')
         f.write('\n'.join(rows) + '\n')
 
